@@ -1,0 +1,22 @@
+//go:build verif
+
+// Machine-checked contracts for this package (comment-only; compiled only with
+// the build tag `verif`). Read by /verif/engine (govc); see /verif/DESIGN.md.
+package dxil
+//
+// ---- statement-tree walkers descend into every nested block -------------------------------
+// (type-derived: for the statement handled by one iteration every field of type
+// Block of every statement kind is passed to the recursive call; see ir/zz_verif_contracts.go)
+//
+//@ func markAliveFromStmt
+//@   mode bv
+//@   tags C18
+//@   ghostcall markAliveFromBlock visitedBlock block
+//@   traverse mark stmt ir.Block visitedBlock($)
+//
+//@ func walkBlockForCalls
+//@   mode bv
+//@   tags C18 C13
+//@   ghostcall walkBlockForCalls visitedBlock block
+//@   traverse stepmark 1 block ir.Block visitedBlock($)
+//
